@@ -166,8 +166,9 @@ impl Run {
             Op::Monitor(m, a, _) => {
                 self.w.monitors_enabled() && *a < n && *m < n && a != m && self.w.me(*m).is_some() && self.w.me(*a).is_some()
             }
-            // a link that would close a supervision cycle is never issued (see `would_cycle`)
-            Op::Link(a, p) => *a < n && *p < n && a != p && self.w.me(*p).is_some() && !self.w.would_cycle(*a, *p),
+            // (a link that would close a supervision cycle is issued too: the code refuses it since the repo
+            // fix `fix: link() refuses a link that would close a supervision cycle`)
+            Op::Link(a, p) => *a < n && *p < n && self.w.me(*p).is_some(),
             Op::Wait(_, a) | Op::Call(_, a) => *a < n,
             Op::PollWait(_) | Op::PollCall(_) => true,
             Op::PollSpawn(a) | Op::DropSpawn(a) | Op::Poll(a) | Op::Abort(a) | Op::Resume(a, _) => *a < n,
@@ -211,6 +212,9 @@ impl Run {
                 self.w.spawn_instant(*sup, name.as_deref());
             }
             Op::Link(a, p) => {
+                if self.w.would_cycle(*a, *p) {
+                    self.stats.bump("op.link.would-close-a-cycle");
+                }
                 self.stats.bump(&format!("op.link@{}", open_of(&self.w, *a)));
                 self.w.link(*a, *p);
             }
